@@ -56,13 +56,22 @@ def key_of(e):
 
 NOSECTION = 'no-logs-section'
 
+LONGPFX = 'x' * 200 + '/' + 'y' * 60
+PATHS = {'LA': LONGPFX + 'A', 'LB': LONGPFX + 'B', 'FULL': '/dev/full'}      # FULL: every write fails (nothing can be read back from it, so nothing is expected of it)
+
+
+def fname(x):
+    x = x.lstrip('=')
+    return PATHS.get(x, x)
+
+
 def section_text(sec):
     if sec == NOSECTION:
         return b'unrelated "setting"\n'      # a file without any logs section: every routing entry is gone
     o = ['logs {']
     for e in sec:
         fac, ex, d = e
-        val = '"file:%s"' % d[0] if (len(d) == 1 and not d[0].startswith('=')) else '( %s )' % ', '.join('"file:%s"' % x.lstrip('=') for x in d)
+        val = '"file:%s"' % fname(d[0]) if (len(d) == 1 and not d[0].startswith('=')) else '( %s )' % ', '.join('"file:%s"' % fname(x) for x in d)
         o.append('  "%s" %s' % (key_of(e), val))
     o.append('}')
     return ('\n'.join(o) + '\n').encode()
@@ -82,7 +91,7 @@ def route(sec):
         for f in FACS:
             if fac == '*' or fac == f:
                 for s in ss:
-                    r.setdefault((f, s), set()).update(x.lstrip('=') for x in d)
+                    r.setdefault((f, s), set()).update(x.lstrip('=') for x in d if x.lstrip('=') != 'FULL')
     return r
 
 
@@ -91,7 +100,7 @@ def judge(seq, emit, tag):
     V = []
     want = route(seq[-1])
     got = {}
-    for fname in ('A', 'B', 'C', 'a'):
+    for fname in ('A', 'B', 'C', 'a', 'LA', 'LB'):
         content = emit.get(fname)
         if content is None:
             continue
@@ -140,7 +149,7 @@ def _task(srv, item):
     if r.get('status') != 'ok' or 'emit' not in r:
         return (cid, [('C18.died', 'process %s while emitting: %s' % (r.get('status'), (r.get('stderr') or '').strip().splitlines()[-1:]))], h['rcs'], 0)
     V = judge(seq, r['emit'], tag)
-    nlines = sum(len([l for l in (r['emit'].get(f) or '').split('\n') if l]) for f in ('A', 'B', 'C', 'a'))
+    nlines = sum(len([l for l in (r['emit'].get(f) or '').split('\n') if l]) for f in ('A', 'B', 'C', 'a', 'LA', 'LB'))
     return (cid, V, h['rcs'], nlines)
 
 
@@ -172,6 +181,8 @@ def main(tier):
             (('f1', '<info', ('A',)), ('f1', '>info', ('B',))), (('f2', '=error', ('A',)), ('*', 'info,error', ('A',)))]
     base += [(e,) for e in E[::9]][:15]
     base += [(('f1', 'info', ('a',)),), (('f1', 'info', ('A',)), ('f2', '*', ('a',))), (('f1', '*', ('a',)), ('f2', '*', ('A',)))]
+    # names that agree in their first 255 characters; a destination on which every write fails, next to healthy ones
+    base += [(('f1', '*', ('LA',)), ('f2', '*', ('LB',))), (('f1', 'info', ('LB',)),), (('f1', '*', ('FULL',)), ('f2', '*', ('A',)), ('f3', '*', ('FULL', 'B'))), (('*', '*', ('FULL', 'A')),)]
     nsingle = len(seqs)
     seqs += [(a, c) for a in base for c in base]
     # entries added by one load and dropped by the next (the dropped one sorting first or last), also after an unchanged reload in between
